@@ -104,7 +104,7 @@ end SiteAt
 
 /-! ### Validity of the subtrees found -/
 
-theorem validList_cons (b : Bool) (k : HTree) (ks : List HTree) :
+theorem fs_validList_cons (b : Bool) (k : HTree) (ks : List HTree) :
     validList b (k :: ks) = (validTree b k && validList b ks) := by simp [validList]
 
 mutual
@@ -126,7 +126,7 @@ mutual
     | [], u => by intro _ e; rw [findList?_nil] at e; cases e
     | k :: ks, u => by
       intro hv e
-      rw [validList_cons, Bool.and_eq_true] at hv
+      rw [fs_validList_cons, Bool.and_eq_true] at hv
       cases hk : find? h k with
       | some t =>
         rw [findList?_cons_some hk] at e
